@@ -15,6 +15,13 @@ var SigmaSmall = []string{"a", "5", "*", ":", "-", "~", "NOT", "AND", "OR", "(",
 // SigmaRange concentrates on range and comparison syntax.
 var SigmaRange = []string{"a", "5", "*", `"s"`, ":", ">", "=", "TO", "[", "]", "{", "}", "("}
 
+// SigmaTiny is a bracket/prefix alphabet for long exhaustive sequences (grouping and field syntax).
+var SigmaTiny = []string{"a", "(", ")", ":", "NOT", "+"}
+
+// Fragments are well-formed pieces for random longer sequences.
+var Fragments = append(append([]string{}, Sigma...), "a:b", "a : 5", "f:[1 TO 5]", "f:{* TO b}", "f:(x OR y)", "f:(x OR (y OR z))", "f:(x OR x)", "f:(x OR y OR z*)", "a:>5", "a:<=2",
+	"( a OR b )", "(+a):b", "( a ):b", "a:( b )", "NOT a", "+ a", "- a", "a ~ 2", "a ^ 1.5", "a AND b", "a OR b", `"p q"`, "w*", "/r e/", `/a\\/`, "5:x", "-٣", "a:(b AND c)", "a:(NOT b)", "a:b:c", "a:(b:c)")
+
 // TokSeqs is the space of all token sequences of length 1..L over an alphabet, joined by Sep.
 type TokSeqs struct {
 	Alpha []string
